@@ -13,16 +13,24 @@ import (
 	"sync"
 	"time"
 
+	"github.com/gopacket/gopacket"
 	"github.com/gopacket/gopacket/layers"
 )
 
 // IPv6Defragmenter is a struct which embedded a map of all fragment/packet.
 type IPv6Defragmenter struct {
-	container map[uint32]*fragment
+	container map[fragmentKey]*fragment
 	lock      *sync.Mutex
 }
 
 // fragment is a IPv6 fragment list struct.
+// fragmentKey identifies the datagram a fragment belongs to: source and
+// destination address together with the identification (RFC 8200, 4.5).
+type fragmentKey struct {
+	flow gopacket.Flow
+	id   uint32
+}
+
 type fragment struct {
 	ipv6       *layers.IPv6
 	offset     uint16
@@ -36,7 +44,7 @@ type fragment struct {
 // NewIPv6Defragmenter returns a new IPv6Defragmenter with an initialized map.
 func NewIPv6Defragmenter() *IPv6Defragmenter {
 	return &IPv6Defragmenter{
-		container: make(map[uint32]*fragment),
+		container: make(map[fragmentKey]*fragment),
 		lock:      &sync.Mutex{},
 	}
 }
@@ -80,9 +88,10 @@ func NewIPv6Defragmenter() *IPv6Defragmenter {
 //		// You got the ipv6 layer
 //	}
 func (d *IPv6Defragmenter) DefragIPv6(ipv6 *layers.IPv6, fg *layers.IPv6Fragment) *layers.IPv6 {
+	k := fragmentKey{ipv6.NetworkFlow(), fg.Identification}
 	d.lock.Lock()
 	defer func() {
-		d.container[fg.Identification].time = time.Now()
+		d.container[k].time = time.Now()
 		d.lock.Unlock()
 	}()
 	in := &fragment{
@@ -95,10 +104,10 @@ func (d *IPv6Defragmenter) DefragIPv6(ipv6 *layers.IPv6, fg *layers.IPv6Fragment
 	if in.offset == 0 {
 		in.ipv6 = ipv6
 	}
-	f, ok := d.container[fg.Identification]
+	f, ok := d.container[k]
 	if !ok {
 		// remeber the first coming
-		d.container[fg.Identification] = in
+		d.container[k] = in
 		return nil
 	}
 
@@ -110,7 +119,7 @@ func (d *IPv6Defragmenter) DefragIPv6(ipv6 *layers.IPv6, fg *layers.IPv6Fragment
 		}
 		if in.offset < f.offset {
 			if prev == nil {
-				d.container[fg.Identification] = in
+				d.container[k] = in
 				in.next = f
 				break
 			}
@@ -128,7 +137,7 @@ func (d *IPv6Defragmenter) DefragIPv6(ipv6 *layers.IPv6, fg *layers.IPv6Fragment
 		f = f.next
 	}
 
-	f = d.container[fg.Identification]
+	f = d.container[k]
 	// first one is not the first, return and continue
 	if f.offset != 0 {
 		return nil
@@ -152,7 +161,7 @@ func (d *IPv6Defragmenter) DefragIPv6(ipv6 *layers.IPv6, fg *layers.IPv6Fragment
 	}
 
 	// make the payload
-	f = d.container[fg.Identification]
+	f = d.container[k]
 	var b []byte
 	for {
 		b = append(b, f.payload...)
@@ -163,7 +172,7 @@ func (d *IPv6Defragmenter) DefragIPv6(ipv6 *layers.IPv6, fg *layers.IPv6Fragment
 	}
 	nh := f.nextheader
 
-	f = d.container[fg.Identification]
+	f = d.container[k]
 	l := &layers.IPv6{
 		Version:      6,
 		TrafficClass: f.ipv6.TrafficClass,
